@@ -8,6 +8,12 @@ ownership model predicts (`own.get`, `own.minima`), results of a repeated call a
 are run in real threads against their sequential results, and `vars(copy)` is compared with `vars(original)` over *all*
 instance attributes (so that a new, uncopied attribute is noticed).
 
+Queries with *boundary option values* are examined as kind="query" cases: options that are given but turn out to do nothing
+(taper fraction 0 / 1 / an integer / outside (0, 1), smoothing window of 0 / 1 / 2 points or not an integer, a time window that
+covers the whole series, resampling to the series' own step or own instants, given as list, pass-everything filters) alone and
+combined, x every query method (also filter / resample / interpolate / fit_weibull / extremes with threshold 0 / statistics of
+minima), as one long history on the same series object; a failing case carries the history needed to reproduce it.
+
 Copies are examined as *cases* described by a JSON dictionary (so that every failing one can be replayed):
   kind="copy"  a series on one of several time grids (dyadic, non-uniform, decimal + 1/3, accumulated 0.1, sub-microsecond
                offset, random, given as datetime objects) x date-time reference (none / whole second / with microseconds) x
@@ -36,7 +42,9 @@ import numpy as np
 from .. import core
 
 RULE = ("all 72 combinations of (window, resample none/step/array, taper, filter kind incl. none, smoothing) x uniform / non-uniform "
-        "series x 12 query methods (each also with the stored arrays made read-only); 4 GUI computations x real threads; "
+        "series x 12 query methods (each also with the stored arrays made read-only); boundary option values (no-op taper / "
+        "smoothing / window / resampling / filter values, alone and combined) x 22 query methods as a history on one series; "
+        "4 GUI computations x real threads; "
         "series copies: 7 time grids x 3 date-time references x query histories ([], [dtg_time], random) x 5 ways of copying; "
         "database copies: file-backed (.ts .dat .pkl .h5, 1-2 files) with every kind of preloaded subset (none / some / all) "
         "+ in-memory series x copy / update x deep / shallow x all names / selection in non-file order; "
@@ -139,6 +147,215 @@ def readonly_probe(ts, method, kw, r1):
     if not same(r1, r3):
         return "different answer"
     return None
+
+
+# ======================================================================================================================
+#  query cases: boundary values of the processing options (given, but possibly doing nothing)
+# ======================================================================================================================
+# option values as JSON; symbolic values are resolved against the series by `resolve_opts`
+BOUNDARY = dict(
+    taperfrac=[0., 1., 0, 1, 1.5, -0.25, 1e-300, 0.5],
+    window_len=[0, 1, 2, 3, -1, 4.0, 5],
+    window=["hanning", "blackman"],
+    twin=["whole", "beyond", "exact-ends", "inner"],
+    resample=["own-dt", "own-instants-list", "own-instants-array", "own-dt-float32", 0.4],
+    filterargs=[["tp", [-1., 1.]], ["tp", [0., 1.]], ["tp", [0.1, 0.9]], ["lp", 0.95], ["hp", 1e-6], ["bp", 1e-6, 0.95], ["bs", 0.4, 0.41], ["lp", 0.2]],
+)
+QMETHODS = METHODS + ["maxima_global", "minima_global", "maxima_thr0", "minima_thr0", "stats_minima", "filter", "resample",
+                      "interpolate", "fit_weibull", "average_frequency"]
+
+
+def build_qseries(spec):
+    return make_series(random.Random(spec["seed"]), spec["uniform"], n=spec["n"])
+
+
+def resolve_opts(ts, opts):
+    """JSON option description -> (keyword arguments of get(), the caller's resampling array or None)"""
+    kw, arr = {}, None
+    for k, v in opts.items():
+        if k == "twin":
+            t0, t1 = float(ts.t[0]), float(ts.t[-1])
+            kw[k] = {"whole": (t0 - 1., t1 + 1.), "beyond": (-1e12, 1e12), "exact-ends": (t0, t1),
+                     "inner": (float(ts.t[ts.n // 5]), float(ts.t[-(ts.n // 5) - 1]))}[v]
+        elif k == "resample":
+            if v == "own-dt":
+                kw[k] = float(ts.dt)
+            elif v == "own-dt-float32":
+                kw[k] = np.float32(0.5)
+            elif v == "own-instants-list":
+                kw[k] = [float(_) for _ in ts.t]
+            elif v == "own-instants-array":
+                arr = np.array(ts.t)
+                kw[k] = arr
+            else:
+                kw[k] = float(v)
+        elif k == "filterargs":
+            kw[k] = tuple(v)
+        else:
+            kw[k] = v
+    return kw, arr
+
+
+def qcall(ts, method, kw):
+    """the query `method` with the processing options kw"""
+    if method in METHODS:
+        return call(ts, method, kw)
+    if method == "maxima_global":
+        return ts.maxima(rettime=True, **kw)
+    if method == "minima_global":
+        return ts.minima(rettime=True, **kw)
+    if method == "maxima_thr0":
+        return ts.maxima(rettime=True, local=True, threshold=0., **kw)
+    if method == "minima_thr0":
+        return ts.minima(rettime=True, local=True, threshold=0., **kw)
+    if method == "stats_minima":
+        return ts.stats(is_minima=True, include_sample=True, **kw)
+    if method == "average_frequency":       # properties: no options
+        return (ts.average_frequency, ts.average_period)
+    if method == "fit_weibull":
+        w = ts.fit_weibull(twin=kw.get("twin"))
+        return (w.loc, w.scale, w.shape)
+    if method == "filter":                  # filter(type, freq, twin, taperfrac)
+        fa = kw.get("filterargs", ("lp", 0.2))
+        return ts.filter(fa[0], fa[1] if len(fa) == 2 else tuple(fa[1:]), twin=kw.get("twin"), taperfrac=kw.get("taperfrac"))
+    if method == "resample":
+        r = kw.get("resample", float(ts.dt))
+        if isinstance(r, (list, np.ndarray)):
+            return ts.resample(t=np.asarray(r))
+        return ts.resample(dt=r)
+    if method == "interpolate":
+        r = kw.get("resample")
+        return ts.interpolate(np.asarray(r) if isinstance(r, (list, np.ndarray)) else ts.t)
+    raise ValueError(method)
+
+
+def what_changed(before, after):
+    return [k for k in ("t", "x", "tid", "xid") if after[k] != before[k]] + \
+           [k for k in before["attrs"] if after["attrs"].get(k) != before["attrs"][k]] + \
+           sorted(set(after["attrs"]) - set(before["attrs"]))
+
+
+def query_clauses(ts, method, opts):
+    """-> list of failing clauses (oracle, expected, observed) of one query on the series object ts"""
+    F = []
+    kw, arr = resolve_opts(ts, opts)
+    arr0 = None if arr is None else arr.copy()
+    lst0 = list(kw["resample"]) if isinstance(kw.get("resample"), list) else None
+    before = snap(ts)
+    try:
+        r1 = qcall(ts, method, kw)
+        mid = snap(ts)          # (two in-place sign flips cancel: look after the first call as well)
+        r2 = qcall(ts, method, kw)
+    except Exception as e:      # a query may refuse its options; that is not a matter of this property - but it must not leave traces
+        after = snap(ts)
+        if after != before:
+            F.append(("a query leaves the stored time, data and attributes bit-for-bit unchanged (also when it raises)", "unchanged",
+                      "%s changed after %s" % (what_changed(before, after), type(e).__name__)))
+        return F
+    after = snap(ts)
+    if mid != before:
+        F.append(("a query leaves the stored time, data and attributes bit-for-bit unchanged", "unchanged", what_changed(before, mid)))
+    elif after != before:
+        F.append(("a query leaves the stored time, data and attributes bit-for-bit unchanged (second call)", "unchanged", what_changed(before, after)))
+    if (arr is not None and not np.array_equal(arr, arr0)) or (lst0 is not None and kw["resample"] != lst0):
+        F.append(("a query does not modify the caller's resampling array", "unchanged", "changed"))
+    if not same(r1, r2):
+        F.append(("a repeated query gives the same answer", "equal", "different"))
+    obs = readonly_probe_q(ts, method, kw, r1)
+    if obs is not None:
+        F.append((RO_ORACLE, "same answer, no write", obs))
+    for a in arrays_in(r1):
+        if np.shares_memory(a, ts._t) or np.shares_memory(a, ts.x):
+            F.append(("returned arrays do not alias the stored ones", "no shared memory",
+                      "a returned array shares memory with the stored %s" % ("data" if np.shares_memory(a, ts.x) else "time")))
+            break
+    # the caller may do anything with what a query returned
+    for a in arrays_in(r1):
+        if a is not arr and a.flags.writeable and a.dtype.kind == "f" and a.size:
+            a *= -1.
+            a += 1.
+    if snap(ts) != before and after == before:
+        F.append(("returned arrays do not alias the stored ones (writing to a returned array leaves the series unchanged)",
+                  "unchanged", what_changed(before, snap(ts))))
+    return F
+
+
+def readonly_probe_q(ts, method, kw, r1):
+    fl = (ts._t.flags.writeable, ts.x.flags.writeable)
+    ts._t.setflags(write=False)
+    ts.x.setflags(write=False)
+    try:
+        r3 = qcall(ts, method, kw)
+    except Exception as e:
+        return "raised %s: %s" % (type(e).__name__, str(e)[:120])
+    finally:
+        ts._t.setflags(write=fl[0])
+        ts.x.setflags(write=fl[1])
+    if not same(r1, r3):
+        return "different answer"
+    return None
+
+
+def check_query_case(inp):
+    """kind="query": a fresh series, the queries of the history (answers discarded), then the clauses for the last query"""
+    ts = build_qseries(inp["series"])
+    for m, o in inp.get("history", []):
+        try:
+            qcall(ts, m, resolve_opts(ts, o)[0])
+        except Exception:
+            pass
+    return query_clauses(ts, inp["method"], inp["opts"])
+
+
+def gen_query_cases(rng, quick):
+    """-> list of (method, opts): every boundary value alone x every method, then random combinations"""
+    singles = [{k: v} for k, vs in BOUNDARY.items() if k != "window" for v in vs]
+    singles += [dict(window_len=2, window="hanning"), dict(window_len=1, window="blackman"), dict(taperfrac=0., window_len=1),
+                dict(taperfrac=1., window_len=2), dict(taperfrac=0, window_len=0)]
+    out = []
+    for o in singles:
+        ms = QMETHODS if not quick else ["get", "minima"] + rng.sample(QMETHODS, 5)
+        out += [(m, o) for m in ms]
+    for _ in range(150 if quick else 3000):
+        ks = rng.sample(sorted(BOUNDARY), rng.randint(2, 4))
+        o = {k: rng.choice(BOUNDARY[k]) for k in sorted(ks)}
+        if "twin" in o and o.get("resample") == "own-instants-array":
+            del o["twin"]            # refused by get (assertion)
+        out.append((rng.choice(QMETHODS), o))
+    return out
+
+
+def run_query_cases(chk):
+    rng = chk.rng
+    for uniform in (True, False):
+        spec = dict(uniform=uniform, n=rng.choice([200, 301]), seed=rng.randrange(10 ** 6))
+        ts, hist = build_qseries(spec), []
+        ref = snap(ts)
+        for m, o in gen_query_cases(rng, chk.quick):
+            chk.count("query-boundary")
+            chk.dist("method:" + m)
+            for k in o:
+                chk.dist("boundary-option:" + k)
+            chk.nontriv(repr((uniform, m, o)))
+            try:
+                F = query_clauses(ts, m, o)
+                if not F and snap(ts) != ref:
+                    F = [("a query leaves the stored time, data and attributes bit-for-bit unchanged", "unchanged", what_changed(ref, snap(ts)))]
+            except Exception as e:
+                F = [("evaluating a query completes without an exception of the harness", "no exception", repr(e)[:300])]
+            if F:
+                inp = dict(kind="query", series=spec, history=[], method=m, opts=o)
+                try:
+                    alone = check_query_case(inp)
+                except Exception:
+                    alone = []
+                if not alone:           # needs the queries made before on the same object
+                    inp["history"] = list(hist)
+                for oracle, expected, observed in F:
+                    chk.fail(oracle, inp, expected, observed)
+                ts, hist = build_qseries(spec), []         # continue on an unspoilt series
+            else:
+                hist.append([m, o])
 
 
 # ======================================================================================================================
@@ -462,11 +679,13 @@ def check_case(inp):
             return check_copy_case(inp)
         if inp["kind"] == "db":
             return check_db_case(inp)
+        if inp["kind"] == "query":
+            return check_query_case(inp)
         raise ValueError(inp["kind"])
     except Exception as e:
         tb = traceback.extract_tb(e.__traceback__)
         loc = ["%s:%d %s" % (os.path.basename(fr.filename), fr.lineno, fr.name) for fr in tb[-3:]]
-        return [("copying and comparing a series / database completes without an exception", "no exception",
+        return [("evaluating the case (queries / copying and comparing a series or database) completes without an exception", "no exception",
                  dict(exception=repr(e)[:300], where=loc))]
 
 
@@ -568,7 +787,9 @@ def run(chk):
         before = snap(ts)
         arr0 = None if arr is None else arr.copy()
         try:
+            mid = None
             r1 = call(ts, m, kw)
+            mid = snap(ts)
             r2 = call(ts, m, kw)
         except Exception as e:
             chk.dist("raised:" + type(e).__name__)
@@ -578,9 +799,10 @@ def run(chk):
                          "unchanged", "changed after " + type(e).__name__)
             continue
         after = snap(ts)
-        if after != before:
-            what = [k for k in ("t", "x", "tid", "xid") if after[k] != before[k]] + [k for k in before["attrs"] if after["attrs"].get(k) != before["attrs"][k]]
-            chk.fail("a query leaves the stored time, data and attributes bit-for-bit unchanged", inp, "unchanged", what)
+        if mid != before:           # after the first call (two in-place sign flips would cancel)
+            chk.fail("a query leaves the stored time, data and attributes bit-for-bit unchanged", inp, "unchanged", what_changed(before, mid))
+        elif after != before:
+            chk.fail("a query leaves the stored time, data and attributes bit-for-bit unchanged", inp, "unchanged", what_changed(before, after))
         if arr is not None and not np.array_equal(arr, arr0):
             chk.fail("a query does not modify the caller's resampling array", inp, "unchanged", "changed")
         if not same(r1, r2):
@@ -606,6 +828,12 @@ def run(chk):
                     chk.disagree("own.get", inp, o, "returned time %s the caller's array" % ("is" if is_arg else "is not"))
             if tags["t"] == "stored" or tags["x"] == "stored" or "stored" in tags["writes"]:
                 chk.disagree("own." + m, inp, o, "model predicts access to stored arrays")
+    # ---- boundary values of the options, as a history on one series ---------------------------------------------------------------
+    for inp in [c for c in core.load_corpus("C10") if c.get("kind") == "query"]:
+        chk.count("query-boundary")
+        for oracle, expected, observed in check_case(inp):
+            chk.fail(oracle, inp, expected, observed)
+    run_query_cases(chk)
     # ---- copies of series and databases (cases) ---------------------------------------------------------------------------------
     cases = [c for c in core.load_corpus("C10") if c.get("kind") in ("copy", "db")]
     cases += gen_copy_cases(rng, chk.quick) + gen_db_cases(rng, chk.quick)
@@ -667,7 +895,7 @@ def run(chk):
 def replay(rp):
     import random
     inp = rp["input"]
-    if inp.get("kind") in ("copy", "db"):
+    if inp.get("kind") in ("copy", "db", "query"):
         F = check_case(inp)
         for oracle, expected, observed in F:
             print("FAILS: %s\n       expected %s, observed %s" % (oracle, expected, observed))
